@@ -1,0 +1,86 @@
+//go:build verif
+// +build verif
+
+package deflate
+
+import "fmt"
+
+// Verification hook (build tag "verif" only).
+//
+// VerifGuard re-seats the compressor's internal buffers inside larger,
+// canary-filled arrays (same len and cap as before, so the compressor cannot
+// tell the difference) and returns a function that reports whether any byte
+// outside the buffers' capacity has been modified. This turns an out-of-bounds
+// store by unsafe or assembly code into a deterministic failure.
+// It returns nil for Writers that delegate to compress/flate.
+func (w *Writer) VerifGuard() (check func() error) {
+	const pad = 512
+	const canary = 0xA5
+	type region struct {
+		name string
+		mem  []byte
+		lo   int
+		hi   int
+	}
+	var regions []region
+	guardBytes := func(name string, p *[]byte) {
+		old := *p
+		mem := make([]byte, pad+cap(old)+pad)
+		for i := range mem {
+			mem[i] = canary
+		}
+		n := copy(mem[pad:pad+cap(old)], old[:cap(old)])
+		_ = n
+		*p = mem[pad : pad+len(old) : pad+cap(old)]
+		regions = append(regions, region{name, mem, pad, pad + cap(old)})
+	}
+	const tokCanary = token(0xA5A5A5A5)
+	var tokMem []token
+	var tokLo, tokHi int
+	guardTokens := func(p *[]token) {
+		old := *p
+		tokMem = make([]token, pad+cap(old)+pad)
+		for i := range tokMem {
+			tokMem[i] = tokCanary
+		}
+		copy(tokMem[pad:pad+cap(old)], old[:cap(old)])
+		tokLo, tokHi = pad, pad+cap(old)
+		*p = tokMem[pad : pad+len(old) : pad+cap(old)]
+	}
+	switch c := w.lc.(type) {
+	case *dynCompressor:
+		guardBytes("dyn.buffer", &c.buffer)
+		guardBytes("dyn.output", &c.buf.output)
+		guardTokens(&c.tokens)
+	case *huffmanOnly:
+		guardBytes("huff.buffer", &c.buffer)
+		guardBytes("huff.output", &c.buf.output)
+	default:
+		return nil
+	}
+	return func() error {
+		for _, r := range regions {
+			for i := 0; i < r.lo; i++ {
+				if r.mem[i] != canary {
+					return fmt.Errorf("verif guard: %s: byte %d before the buffer was overwritten", r.name, r.lo-i)
+				}
+			}
+			for i := r.hi; i < len(r.mem); i++ {
+				if r.mem[i] != canary {
+					return fmt.Errorf("verif guard: %s: byte %d past the buffer capacity was overwritten", r.name, i-r.hi)
+				}
+			}
+		}
+		for i := 0; i < tokLo; i++ {
+			if tokMem[i] != tokCanary {
+				return fmt.Errorf("verif guard: tokens: slot %d before the buffer was overwritten", tokLo-i)
+			}
+		}
+		for i := tokHi; i < len(tokMem); i++ {
+			if tokMem[i] != tokCanary {
+				return fmt.Errorf("verif guard: tokens: slot %d past the capacity was overwritten", i-tokHi)
+			}
+		}
+		return nil
+	}
+}
